@@ -6,6 +6,12 @@ props = [json.loads(l) for l in open(os.path.join(V, "properties.jsonl"))]
 
 # id -> (level, technique, level text, level note, design ref)
 CLAIMED = {
+ "C10": ("exploration", "deterministic simulation: histories mixing load / load_owned / remove / take / clear / get_or_insert on the same keys with edits, notifications and hot_reload passes, on every cache constructor (hot, without_hot_reloading, LocalAssetCache, source without / with failing hot-reloading support), against the map model with protected-entry bookkeeping",
+         "Seeded search over histories, constructors and schedules of caller vs reloader; after every hot_reload pass each protected entry (created by get_or_insert, of an opted-out type incl. Arc-wrapped, or held by a reloader-less cache) must still hold its value with reload id NEVER; references obtained with Handle::get early must read the same value at the end. Sampling, not proof.",
+         "The load/get_or_insert insertion race is C01's scenario. Known open finding F-C10a is matched by signature.", "DESIGN.md §7 C10"),
+ "C13": ("exploration", "deterministic simulation: C02-style histories on all front-ends extended with reload rounds, insertion races, a guard-holding reader during passes and cache drop with queued events; drop ledger equality (alive = stored) after every operation; exhaustive wrong-type views of untyped handles",
+         "Seeded search over histories and schedules with tracked values of several sizes/alignments (zero-sized, 1 byte, 64-byte aligned, heap-owning, 4 KiB): after every operation the set of live tracked values must equal the set reachable from the cache (no leak, no early drop), stored values are pinned while operations that must not drop them run, a value behind a live read guard never changes or dies during a pass, racing creators end with one stored value, everything is gone after the cache is dropped; every (stored type, requested type) pair over 21 asset types is probed through is / downcast_ref / guard downcast. Sampling, not proof.",
+         "Allocation-level accounting (layout on free, raw leaks) is done for SharedBytes in C16 and by the Miri engine; here the ledger works on tracked values.", "DESIGN.md §7 C13"),
  "C06": ("exploration", "deterministic simulation: the dependency-graph scenarios of C05 in local mode (recipe compounds, edits, duplicated/batched/unrelated/missing notifications, barriers) with the precision half of the fixpoint oracle, reload ids, ReloadWatcher / reloaded_global and a polling reader racing the reloader",
          "Seeded search over dependency graphs, edit histories and schedules; oracles: assets outside the model's reverse closure keep value and reload id, each affected asset's id grows by exactly one per pass and by zero on a failed reload, watchers and the global flag report exactly the rewrites since they were armed (and only once), un-notified edits and unrelated notifications change nothing, a reader that polls its watcher during the pass never reads a value older than the reload it was told about. Sampling, not proof.",
          "The model mirrors the dependency sets each (re)load recorded; rounds in which a reload caches a previously absent asset, or that show the known F-C05b shape, are stopped and counted.", "DESIGN.md §7 C06"),
